@@ -87,7 +87,7 @@ def statements(pa: str, qa: str) -> List[str]:
         f'from {pa}.c import fc as b', f'from {pa}.c import Kc as s', f'from {pa}.c import fc as d',     # (a LATER import of that sub-module re-binds the name in CPython: not generated, the order of import events is dynamic)
         # through a package that re-binds the name of its own sub-module, and through modules analysed after the consumer
         f'from {pa}.w import run', f'from {pa}.w import run as run0, Frame as Fr0', f'from {pa} import w as w0\nZ6 = w0.run', f'from {pa} import w as w1\nZ7 = w1.Frame',
-        f'import {pa}.w\nZ8 = {pa}.w.run', f'from {pa} import zlate as zl\nZ9 = zl.Late0\nZ10 = zl.late_run', f'import {pa}.w.run as wr0\nZ11 = wr0.other', 'from . import w as w2\nZ12 = w2.run',
+        f'import {pa}.w\nZ8 = {pa}.w.run', f'from {pa} import zlate as zl\nZ9 = zl.Late0\nZ10 = zl.late_run', f'import {pa}.w.run as wr0\nZ11 = wr0.other', 'from . import w as w9\nZ12 = w9.run',
         # an object its package re-exports (moves), named by where it is defined: found through the alias the move leaves behind (System.find_object)
         f'from {pa}2.core import Eng', f'from {pa}2.core import Eng as E2, stays', f'import {pa}2.core as xc0\nZ13 = xc0.Eng', f'from {pa}2 import Eng as E3', f'import {pa}2\nZ14 = {pa}2.core.Eng',
         # uses of a name that the module AND the enclosing class bind (only importable in the nested-decoy scope)
